@@ -354,7 +354,23 @@ func (k c09) Run(c *rt.Ctx) {
 				// (x + 1 + 2 -> x + 3) rounds differently, C04 keeps to exact values for that reason
 				shape = r.Intn(3)
 			}
+			if c.Case%3 == 1 && len(groups) > 0 && !implicit {
+				shape = 8
+			}
 			switch shape {
+			case 8: // a GROUP BY field used by name next to the aggregate: each row shows its own group's value
+				gi := c.Case / 3 % len(groups)
+				gref := gen.Ref(fmt.Sprintf("g%d", gi), groups[gi])
+				switch groups[gi].T {
+				case gen.TN:
+					tree = gen.Bin("+", tree, gref)
+					c.Rec.Inc("group_field_name_beside_the_aggregate")
+				case gen.TS:
+					tree = gen.Bin("+", tree, gen.Call("strlen", gref))
+					c.Rec.Inc("group_field_name_beside_the_aggregate")
+				default:
+					tree = gen.Bin("*", tree, gen.Int(10))
+				}
 			case 3: // constant sub-expressions next to the aggregate, joined by other operators than their own
 				tree = gen.Bin("+", gen.Bin("*", tree, gen.Bin("+", gen.Int(1), gen.Int(1))), gen.Int(1))
 			case 4:
@@ -571,7 +587,15 @@ func (k c09) Run(c *rt.Ctx) {
 				}
 				vals[vi] = v
 			}
-			want, ok := c09EvalAround(cl.tree, vals)
+			refs := map[string]refeval.Val{}
+			for ki, kv := range g.key {
+				if v, ok := c09Num(kv); ok && !strings.HasPrefix(kv, "T") {
+					refs[fmt.Sprintf("g%d", ki)] = v
+				} else if strings.HasPrefix(kv, "T") {
+					refs[fmt.Sprintf("g%d", ki)] = refeval.Text(c09Render(kv))
+				}
+			}
+			want, ok := c09EvalAround(cl.tree, vals, refs)
 			if !ok {
 				rec.NotJudged("arithmetic around the aggregate is outside the reference")
 				return
@@ -776,10 +800,28 @@ func c09Fold(a c09Agg, rows [][]string, col int) (refeval.Val, bool) {
 
 // c09EvalAround evaluates the field tree with each aggregate call replaced by
 // its folded value (in order of appearance).
-func c09EvalAround(tree *gen.Node, vals []refeval.Val) (refeval.Val, bool) {
+func c09EvalAround(tree *gen.Node, vals []refeval.Val, refs map[string]refeval.Val) (refeval.Val, bool) {
 	i := 0
+	missing := false
 	var sub func(n *gen.Node) *gen.Node
 	sub = func(n *gen.Node) *gen.Node {
+		if n.K == gen.KRef {
+			v, ok := refs[n.Op]
+			if !ok {
+				missing = true
+				return gen.Int(0)
+			}
+			switch v.K {
+			case refeval.VInt:
+				return gen.Int(v.I)
+			case refeval.VFloat:
+				return &gen.Node{K: gen.KFloat, T: gen.TN, F: v.F, S: "?"}
+			case refeval.VText:
+				return gen.Str(v.S)
+			}
+			missing = true
+			return gen.Int(0)
+		}
 		if n.K == gen.KCall && gen.IsAggr(n.Op) {
 			v := vals[i]
 			i++
@@ -804,7 +846,11 @@ func c09EvalAround(tree *gen.Node, vals []refeval.Val) (refeval.Val, bool) {
 		return vals[0], true
 	}
 	env := &refeval.Env{}
-	return env.Eval(sub(tree))
+	t := sub(tree)
+	if missing {
+		return refeval.Val{}, false
+	}
+	return env.Eval(t)
 }
 
 func c09Same(aggName string, want refeval.Val, got string) bool {
